@@ -106,7 +106,18 @@ def gen_case(rnd, dyadic):
     shape = rnd.random()
     n = rnd.choice([0, 1, 1, 2, 3, 5, 8])
     ops = list(range(1, 11))
-    if shape < 0.25:
+    if shape < 0.12:
+        # aggregate tie: equal values from a penalised and an immune source in one min/max group, next to other
+        # penalised modifications of the same operator (which pick wins decides the position in the chain)
+        op = rnd.choice([2, 3, 6, 8, 9])
+        agg = rnd.choice([2, 3])
+        v = rnd.choice([x for x in vals if x not in (0, 1)])
+        mods = [(op, v, 1, agg, 1, False), (op, v, 1, agg, 1, True)]
+        mods += [(op, rnd.choice([x for x in vals if x not in (0, 1)]), 1, 1, None, False) for _ in range(rnd.randint(1, 3))]
+        rnd.shuffle(mods)
+        return {'stackable': 0, 'hig': int(rnd.random() < 0.5), 'base': rnd.choice(vals), 'cap': None, 'limited': 0,
+                'mods': mods}
+    if shape < 0.30:
         # long penalised chain of one operator around the 11-modification cut-off
         op = rnd.choice([2, 3, 6, 8, 9])
         n = rnd.choice([2, 3, 10, 11, 12, 13])
